@@ -204,3 +204,27 @@ End Final.
 
 Lemma range_collision_same (H : bytes -> bytes) : NodeCollision H <-> Tree.NodeCollision hash (Rhp.node H).
 Proof. unfold NodeCollision, Tree.NodeCollision. split; intros C; exact C. Qed.
+
+(* single leaves of a 65536-leaf sector: instances of the range theorems *)
+Section Leaf.
+Variable H : bytes -> bytes.
+Lemma slice_one (ls : list hash) i : (N.to_nat i < length ls)%nat -> slice ls i 1 = [nth (N.to_nat i) ls zero_hash].
+Proof.
+  intros L. unfold slice. change (N.to_nat 1) with 1%nat. revert ls L. generalize (N.to_nat i) as k.
+  induction k as [|k IH]; intros [|x ls] L; cbn in L; try lia; [reflexivity|]. cbn [skipn nth]. apply IH. lia.
+Qed.
+Theorem leaf_proof_complete (ls : list hash) i : N.of_nat (length ls) = 65536 -> i < 65536 ->
+  verify_range_proof H (build_range_proof H ls i (i + 1)) [nth (N.to_nat i) ls zero_hash] i (i + 1) 65536 (Rhp.mroot H ls) = true.
+Proof.
+  intros L Hi. pose proof (range_proof_complete H ls i (i + 1)) as C. cbv zeta in C. rewrite L in C.
+  replace (i + 1 - i) with 1 in C by lia. rewrite slice_one in C by lia. apply C; lia.
+Qed.
+Theorem leaf_proof_sound (ls : list hash) i proof leaf : N.of_nat (length ls) = 65536 -> i < 65536 ->
+  verify_range_proof H proof [leaf] i (i + 1) 65536 (Rhp.mroot H ls) = true ->
+  (leaf = nth (N.to_nat i) ls zero_hash /\ proof = build_range_proof H ls i (i + 1)) \/ NodeCollision H.
+Proof.
+  intros L Hi V. pose proof (range_proof_sound H ls i (i + 1) proof [leaf]) as S. rewrite L in S.
+  replace (i + 1 - i) with 1 in S by lia. rewrite slice_one in S by lia.
+  destruct (S ltac:(lia) ltac:(lia) ltac:(lia) ltac:(reflexivity) V) as [[E1 E2]|C]; [left | right; exact C]. split; [inversion E1; reflexivity | exact E2].
+Qed.
+End Leaf.
